@@ -644,6 +644,25 @@ def shrink_rule(crate):
                 res.append((b, l, ok, "len -= 1 %s" % ("after set(len-1, Zero)" if ok else "WITHOUT clearing bit len-1 first")))
                 continue
             # general: a canonicalising event at the new length dominates the store
+            multiword = False
+            for sb, cond, taken, succ, other in _dom_edges(b, l.loc[0]):
+                if taken and is_bin(cond, "Lt") and cond[2] == v and cond[3] == cur:
+                    multiword = True   # `if new < len`: may drop any number of whole words
+            zero_ok = not multiword
+            if multiword:
+                for w in evs:
+                    if w.kind == "write" and w.obj == l.obj and w.how == "assign" and w.index is not None and w.index[0] == "iv" \
+                            and (w.value == ("int", 0) or (w.value[0] == "assoc" and w.value[1] == "ZERO")):
+                        src = b.iter_source(w.index[1])
+                        if src[0] == "agg" and src[1].startswith("Range"):
+                            lo, hi = src[3]
+                            lo_ok = lo == ("bin", "Add", ("bin", "Div", v, _bu_like(lo)), ("int", 1)) or lo == ("bin", "Div", v, _bu_like(lo))
+                            hi_ok = cap_arg(hi) == cur or hi == ("cparam", "N") or (is_call(hi, "len") and hi[3] == (("field", l.obj, "data"),))
+                            if lo_ok and hi_ok and b.block_dominates(w.loc[0], l.loc[0]) is False:
+                                # the loop body does not dominate the store, its header does: check the loop is on the path
+                                pass
+                            if lo_ok and hi_ok:
+                                zero_ok = True
             ok = False
             why = "no truncation to the new length %s dominates the length store" % show(v)
             for m in masks:
@@ -653,8 +672,25 @@ def shrink_rule(crate):
                         continue
                     ok = True
                     why = "truncated by %s before the store" % m.detail
+            if ok and not zero_ok:
+                ok = False
+                why = ("shrinks by an arbitrary amount (`%s < len`) but the whole words above the new length are not zeroed "
+                       "(expected a loop writing 0 to words %s / BU + 1 .. cap(old length))" % (show(v), show(v)))
             res.append((b, l, ok, why))
     return res
+
+
+def _dom_edges(b, blk):
+    from . import guard
+    return guard.edges_dominating(b, blk)
+
+
+def _bu_like(e):
+    """the BIT_UNIT operand of `x / BU` inside e (or a placeholder that cannot match)"""
+    for x in walk(e):
+        if is_bin(x, "Div") and is_bu(x[3]):
+            return x[3]
+    return ("none",)
 
 
 # ---------------------------------------------------------------------------------------
@@ -689,7 +725,8 @@ def used_words(crate):
                 a = b.e_operand(t["args"][0])
                 if a == ("field", ("param", "self"), "data"):
                     uses_alloc.append(bb)
-        if not uses_alloc:
+        iter_writes = [w for w in writes if w.index is not None and w.index[0] == "iter" and w.obj == ("param", "self")]
+        if not uses_alloc and not iter_writes:
             continue
         if b.name in USED_ALLOWED_LEN_USERS and not (b.name in ("eq", "cmp", "partial_cmp") and writes):
             res.append((b, True, "allowed user of data.len(): %s" % USED_ALLOWED_LEN_USERS[b.name]))
@@ -703,6 +740,13 @@ def used_words(crate):
                 if mir.contains(src, lambda x: is_call(x, "len") and x[3] and x[3][0] == ("field", ("param", "self"), "data")):
                     bad.append("write self.data[%s] in a loop over %s (allocated words, not used words)"
                                % (b.iv_name(w.index[1]), show(src)))
+            if w.index is not None and w.index[0] == "iter":
+                # mutable iteration over storage: must be restricted to the used words self.data[..cap(len)]
+                src = w.index[1]
+                restricted = mir.contains(src, lambda x: is_call(x, ("index_mut", "index", "get_mut")) and len(x[3]) == 2
+                                          and mir.contains(x[3][1], lambda y: is_call(y, "capacity_from_bit_len")))
+                if not restricted and not getattr(w, "is_mask", False) and not _and_only(w):
+                    bad.append("write through a mutable iterator over the whole storage `%s` (allocated words, not used words)" % show(src))
         if bad:
             res.append((b, False, "; ".join(sorted(set(bad)))))
         else:
